@@ -242,12 +242,14 @@ CLAIMS = {
         ref="DESIGN.md section 6 C14"),
     "C15": dict(
         text="The model's validity predicates are the grammar productions generated from the source (char_data, comment, cdsect, pi, "
-             "att_value, qname) — the ones the library validates with. Kernel-checked: closed form of what char_data accepts (all Chars "
-             "but '<' '&', no ']]>'), every data edit that succeeds stored data that passed the predicate for the node's kind evaluated "
+             "att_value, qname) — the ones the library validates with. Kernel-checked: closed forms of what the translated productions accept for a "
+             "Text node (all Chars but '<' '&', no ']]>'), a CDATA section (all Chars, no ']]>') and a comment (= production [15] of the "
+             "Recommendation as a recogniser, = all Chars, no '--', no '-' at the end; by induction over the fuel-driven many0 loop), "
+             "every data edit that succeeds stored data that passed the predicate for the node's kind evaluated "
              "on the OUTCOME of the edit (so sequences arising from combining harmless pieces are refused), a refused edit changes "
              "nothing. Monitor after every step: to_string() is accepted by from_raw with nothing left and its dump equals the DOM's "
              "own dump. Tie: status and dump vs the model.",
-        note="Partial proof: closed forms for comment/CDATA/PI/attribute-value validity and preservation of a global 'printable' invariant "
+        note="Partial proof: closed forms for PI and attribute-value validity and preservation of a global 'printable' invariant "
              "by every operation are not yet proved (tie + monitor cover them). Known finding factory-panic.",
         technique="Lean 4 proof (partial; grammar-derived validity predicates) + re-parse monitor after every successful call + differential correspondence",
         ref="DESIGN.md section 6 C15"),
